@@ -8,7 +8,7 @@ CONSTANTS
   MaxEof = 1
   SlowSet = {}
   CfgWrite = FALSE
-  NCl = 1
+  NCl = 2
 INVARIANT MonitorQuiet
 INVARIANT OneReceivePath
 INVARIANT LockDiscipline
